@@ -188,7 +188,7 @@ DOMNode *DOMAttrMapImpl::setNamedItem(DOMNode *arg)
         }
         fNodes->insertElementAt(arg,i);
     }
-    if (previous != 0) {
+    if (previous != 0 && previous != arg) {
         castToNodeImpl(previous)->fOwnerNode = doc;
         castToNodeImpl(previous)->isOwned(false);
     }
@@ -263,7 +263,7 @@ DOMNode *DOMAttrMapImpl::setNamedItemNS(DOMNode* arg)
             fNodes=new ((DOMDocumentImpl*)doc) DOMNodeVector(doc);
         fNodes->insertElementAt(arg,i);
     }
-    if (previous != 0) {
+    if (previous != 0 && previous != arg) {
         castToNodeImpl(previous)->fOwnerNode = doc;
         castToNodeImpl(previous)->isOwned(false);
     }
